@@ -510,6 +510,10 @@ class C10(Check):
             cfg["latency"] = rng.choice([[0.05, 1.5], [0.5, 4.0], [1.0, 3.0]])
         if cfg["sched"].get("lines") and rng.random() < 0.6:
             cfg["sched"]["stall_hot"] = rng.choice([0.03, 0.1, 0.2])
+        if cfg["sched"].get("policy") == "walk" and rng.random() < 0.7:
+            # a thread loses the CPU for seconds right after a lock release / queue put / event set: the window between an
+            # operation's asynchronous START and its orphan test stays open while a sibling completes the parent
+            cfg["sched"]["stall_p"] = rng.choice([0.02, 0.05, 0.1])
         # bias configs towards early exit
         def walk(body):
             for st in body:
